@@ -58,6 +58,59 @@ pub fn collapse_model(v: &Value) -> Value {
     }
 }
 
+/// Is `d` what remains of `v` after *some* groups of map keys that the library's order takes for equal were merged (at any
+/// depth)?  Each entry of `d` must stand for a non-empty group of entries of `v` whose keys are pairwise loosely equal,
+/// with its key taken from one member and its value from one member; the groups use up all entries of `v`.  With every
+/// group a singleton this is plain equality.  (The library keeps the first key and the last value, but which keys it takes
+/// for equal depends on representation details as well, e.g. on how wide a big integer arrived: any such merge is an
+/// instance of the known finding, anything else is not.)
+pub fn is_key_merge_of(v: &Value, d: &Value) -> bool {
+    match (v, d) {
+        (Value::Tuple(a), Value::Tuple(b)) => a.len() == b.len() && a.iter().zip(b).all(|(x, y)| is_key_merge_of(x, y)),
+        (Value::List { elems: a, tail: ta }, Value::List { elems: b, tail: tb }) => {
+            a.len() == b.len()
+                && a.iter().zip(b).all(|(x, y)| is_key_merge_of(x, y))
+                && match (ta, tb) {
+                    (None, None) => true,
+                    (Some(x), Some(y)) => is_key_merge_of(x, y),
+                    _ => false,
+                }
+        }
+        (Value::Map(mv), Value::Map(md)) => {
+            // assign every entry of v to one entry of d with a loosely equal key, such that every entry of d gets a member
+            // that provides its key and a member that provides its value (small maps: plain backtracking)
+            if md.len() > mv.len() || mv.len() > 12 {
+                return mv.len() == md.len() && v.same(d);
+            }
+            let cand: Vec<Vec<usize>> = mv.iter().map(|(k, _)| (0..md.len()).filter(|j| refmodel::order::loose_eq(k, &md[*j].0)).collect()).collect();
+            if cand.iter().any(|c| c.is_empty()) {
+                return false;
+            }
+            let key_ok: Vec<Vec<bool>> = mv.iter().map(|(k, _)| md.iter().map(|(kd, _)| is_key_merge_of(k, kd)).collect()).collect();
+            let val_ok: Vec<Vec<bool>> = mv.iter().map(|(_, x)| md.iter().map(|(_, xd)| is_key_merge_of(x, xd)).collect()).collect();
+            fn go(i: usize, cand: &[Vec<usize>], key_ok: &[Vec<bool>], val_ok: &[Vec<bool>], has_key: &mut Vec<bool>, has_val: &mut Vec<bool>) -> bool {
+                if i == cand.len() {
+                    return has_key.iter().all(|b| *b) && has_val.iter().all(|b| *b);
+                }
+                for &j in &cand[i] {
+                    let (pk, pv) = (has_key[j], has_val[j]);
+                    has_key[j] |= key_ok[i][j];
+                    has_val[j] |= val_ok[i][j];
+                    if go(i + 1, cand, key_ok, val_ok, has_key, has_val) {
+                        return true;
+                    }
+                    has_key[j] = pk;
+                    has_val[j] = pv;
+                }
+                false
+            }
+            go(0, &cand, &key_ok, &val_ok, &mut vec![false; md.len()], &mut vec![false; md.len()])
+        }
+        (Value::Fun { free: fa, .. }, Value::Fun { free: fb, .. }) => fa.len() == fb.len() && fa.iter().zip(fb).all(|(x, y)| is_key_merge_of(x, y)) && refmodel::order::loose_eq(v, d),
+        _ => v.same(d),
+    }
+}
+
 fn deflate(body: &[u8]) -> Vec<u8> {
     let mut e = flate2::write::ZlibEncoder::new(Vec::new(), flate2::Compression::default());
     e.write_all(body).unwrap();
@@ -94,7 +147,7 @@ pub fn oracle(case: &Case) -> Verdict {
         Ok(t) => {
             let d = denote(&t);
             if !d.same(v) {
-                if eqkeys && d.same(&collapse_model(v)) {
+                if eqkeys && (d.same(&collapse_model(v)) || is_key_merge_of(v, &d)) {
                     vfail!("map-keys-equal-under-==-collapse", "map with keys such as 1 and 1.0 lost an entry: got {} from {}", d.render(), v.render());
                 }
                 vfail!(
@@ -154,7 +207,7 @@ pub fn oracle(case: &Case) -> Verdict {
                     vfail!("decode-with-trailing-wrong-rest", "rest has {} bytes, expected {}", rest.len(), case.junk.len());
                 }
                 let d = denote(&t);
-                if !d.same(v) && !(eqkeys && d.same(&collapse_model(v))) {
+                if !d.same(v) && !(eqkeys && (d.same(&collapse_model(v)) || is_key_merge_of(v, &d))) {
                     vfail!("decoded-value-differs", "decode_with_trailing gave {} expected {}", d.render(), v.render());
                 }
             }
